@@ -198,6 +198,12 @@ impl Driver {
         let need_add = !registry.contains_key(&arg.fd);
         let queue = registry.entry(arg.fd).or_default();
         let token = queue.push_back_interest(key, arg.interest);
+        #[cfg(compio_verif)]
+        crate::verif::emit(
+            crate::verif::POLL_QUEUE,
+            queue.read_queue.back().or(queue.write_queue.back()).map_or(0, |k| k.as_raw() as u64),
+            arg.fd as i64,
+        );
         let event = queue.event();
         let res = if need_add {
             // SAFETY: the events are deleted correctly.
@@ -261,6 +267,8 @@ impl Driver {
 
     /// Remove one interest from the queue, and emit a cancelled entry.
     fn cancel_one(&mut self, key: ErasedKey, fd: RawFd) -> Option<Entry> {
+        #[cfg(compio_verif)]
+        crate::verif::emit(crate::verif::POLL_CANCEL, key.as_raw() as u64, fd as i64);
         self.remove_one(&key, fd)
             .map_or(None, |_| Some(Entry::new_cancelled(key)))
     }
@@ -374,13 +382,21 @@ impl Driver {
         let completed = self.completed_tx.clone();
         // SAFETY: we're submitting into the driver, so it's safe to freeze here.
         let mut key = unsafe { key.freeze() };
+        #[cfg(compio_verif)]
+        let verif_addr = key.as_mut() as *mut _ as *const () as u64;
+        #[cfg(compio_verif)]
+        crate::verif::emit(crate::verif::BLOCKING_DISPATCH, verif_addr, 0);
 
         let mut closure = move || {
+            #[cfg(compio_verif)]
+            crate::verif::emit(crate::verif::BLOCKING_START, verif_addr, 0);
             let operate = || match key.as_mut().carrier.operate() {
                 Poll::Pending => unreachable!("this operation is not non-blocking"),
                 Poll::Ready(res) => res,
             };
             let res = catch_unwind_io(AssertUnwindSafe(operate));
+            #[cfg(compio_verif)]
+            crate::verif::emit(crate::verif::BLOCKING_END, verif_addr, 0);
             let _ = completed.send(Entry::new(key.into_inner(), res));
             waker.wake();
         };
@@ -447,13 +463,26 @@ impl Driver {
         let timeout_is_some = timeout.is_some();
         let has_completed = !self.completed_rx.is_empty();
         let need_wait = !self.notify.reset();
+        #[cfg(compio_verif)]
+        crate::verif::sched_point(1);
         if !need_wait || has_completed {
             timeout = Some(Duration::ZERO);
         }
         // We need to poll the poller first to make sure it handles the internal notify
         // event (if any).
         self.events.clear();
+        #[cfg(compio_verif)]
+        {
+            crate::verif::emit(
+                crate::verif::ENTER,
+                0,
+                (timeout != Some(Duration::ZERO)) as i64,
+            );
+            crate::verif::sched_point(3);
+        }
         self.notify.poll.wait(&mut self.events, timeout)?;
+        #[cfg(compio_verif)]
+        crate::verif::emit(crate::verif::ENTER_RETURN, 0, 0);
         self.notify.set_awake();
         if self.events.is_empty() {
             if self.poll_completed() {
@@ -573,6 +602,8 @@ impl Wake for Notify {
 
     fn wake_by_ref(self: &Arc<Self>) {
         if !self.awake.wake() {
+            #[cfg(compio_verif)]
+            crate::verif::emit(crate::verif::NOTIFY_WRITE, 0, 0);
             self.poll.notify().ok();
         }
     }
